@@ -384,20 +384,26 @@ func c04ClientTransport(run *ev.Run, rec *recorded, key string) {
 		{"eof", &url.Error{Op: "Post", URL: "http://verif.local/x", Err: io.EOF}},
 		{"unexpected-eof", &url.Error{Op: "Post", URL: "http://verif.local/x", Err: io.ErrUnexpectedEOF}},
 	}
-	for jj := 0; jj <= (maxReads+1)*len(doErrs)-1; jj++ {
-		j, de := jj/len(doErrs), doErrs[jj%len(doErrs)]
-		ckey := fmt.Sprintf("%s/client-transport/j=%d/%s", key, j, de.name)
+	for jj := 0; jj <= 2*(maxReads+1)*len(doErrs)-1; jj++ {
+		limited := jj%2 == 1
+		j, de := (jj/2)/len(doErrs), doErrs[(jj/2)%len(doErrs)]
+		ckey := fmt.Sprintf("%s/client-transport/j=%d/%s/limit=%v", key, j, de.name, limited)
 		ft := &failingTransport{reads: j, chunk: 7, err: de.err}
-		cs := svc.NewClientSet(ft, "http://verif.local", rec.COpts...)
+		opts := rec.COpts
+		if limited {
+			// a read limit selects different read paths in the library
+			opts = append(append([]connect.ClientOption{}, opts...), connect.WithReadMaxBytes(1<<20))
+		}
+		cs := svc.NewClientSet(ft, "http://verif.local", opts...)
 		var cl *svc.CLog
 		ok, dump := watchdog(30*time.Second, func() { cl = cs.Do(context.Background(), rec.Kind, "ct", nil, rec.Sends) })
-		run.Eval(fmt.Sprintf("%s|client-transport|%d|%s", rec.Name, j, de.name))
+		run.Eval(fmt.Sprintf("%s|client-transport|%d|%s|%v", rec.Name, j, de.name, limited))
 		run.Count("faults.client_transport", 1)
 		if !ok {
 			run.Violation(ckey+"/hang", "client call did not return after the transport failed", trunc(dump, 20000))
 			return
 		}
-		detail := map[string]any{"case": rec.Name, "reads_before_failure": j, "do_error": de.err.Error(), "outcome": clientOutcome(cl, true), "send_errs": fmt.Sprint(cl.SendErrs)}
+		detail := map[string]any{"case": rec.Name, "reads_before_failure": j, "do_error": de.err.Error(), "client_read_limit": limited, "outcome": clientOutcome(cl, true), "send_errs": fmt.Sprint(cl.SendErrs)}
 		if cl.Err == nil {
 			run.Violation(ckey+"/success", "client reported success although the transport failed", detail)
 			return
